@@ -63,6 +63,9 @@ class World:
     self.train = []
     for i, d in enumerate(self.dims):
       tr = gen.training(rng, name, d=d, n_classes=2 + (i % 2))
+      if name == 'RCA' and i % 2 == 1:
+        tr['chunks'] = gen.chunks_from(rng, tr['y'], with_unknown=False)     # every point belongs to a chunk
+        tr['fit_args'] = (tr['X'], tr['chunks'])
       kw = {}
       if name == 'ITML':
         kw['bounds'] = np.array([0.0, 2.0 + i])        # a zero lower bound (the library replaces zeros)
